@@ -67,3 +67,12 @@ func (v *VerifReceiverStream) ProcessSenderReport(now time.Time, sr *rtcp.Sender
 func (v *VerifReceiverStream) GenerateReport(now time.Time) *rtcp.ReceiverReport {
 	return v.s.generateReport(now)
 }
+
+// PresetTotalLost sets the cumulative loss counter of a stream that has not
+// processed anything yet, so that the harness can reach the 24-bit saturation
+// in generateReport without 2^24 real losses.
+func (v *VerifReceiverStream) PresetTotalLost(n uint32) {
+	v.s.m.Lock()
+	defer v.s.m.Unlock()
+	v.s.totalLost = n
+}
